@@ -1,4 +1,5 @@
 import SparseSpace.Lemmas.RombergDegreeFullUnit
+import SparseSpace.Lemmas.RombergDegreeBal
 /-!
 # C11 (extension) — degree of exactness `2m+1` of the default Romberg variant, for EVERY depth `m`
 
@@ -15,7 +16,8 @@ Route: Faulhaber's formula (Mathlib `sum_range_pow`) gives the exact Euler–Mac
 (`C11.romberg_coeff_sum`); Taylor expansion at the left end point transports the monomials to any interval and any
 polynomial.  `GROUPED` / `GROUPED_OPTIMIZED`: the complete grid is one default container (`C11.container_default_is_romberg`).
 `UNIT` with Romberg slices: the slices below a support pair tile it, so the sliced rule is `Σ_j c_{m,j} T_j` as well.
-Not covered: the balanced extrapolation grid (degree `2m-1`), validated by the oracle only.
+Balanced extrapolation grid (degree `2m-1`, `m ≥ 1`): its rows on a complete tree are the composite midpoint sums
+`M_j = 2 T_{j+1} - T_j` (same even expansion), and step `k` of its Romberg table removes the `h^{2k}` term.
 -/
 namespace SparseSpace.C11b
 open SparseSpace SparseSpace.Romberg Polynomial
@@ -141,6 +143,72 @@ example : weights ⟨.unit, .romberg, .default, false⟩ (completeGrid 1 3 2).1 
       = .ok [7/45, 32/45, 4/15, 32/45, 7/45] ∧
     weights ⟨.optimized, .romberg, .default, false⟩ (completeGrid 1 3 2).1 (completeGrid 1 3 2).2
       = .ok [7/45, 32/45, 4/15, 32/45, 7/45] := by decide +kernel
+
+/-! ## the balanced extrapolation grid: degree `2m-1` -/
+
+/-- **exact Euler–Maclaurin expansion of the composite midpoint sums of a monomial** (`cellMid f j x W`: midpoint sum
+    with `2^j` cells; `cellMid = 2·cellTrap (j+1) - cellTrap j`): coefficients independent of `j`, odd ones vanish,
+    constant term `1/(p+1)` -/
+theorem midpoint_monomial_expansion (p : ℕ) (hp : 1 ≤ p) :
+    ∃ γ : ℕ → ℚ, γ 0 = 1 / ((p : ℚ) + 1) ∧ (∀ i, Odd i → γ i = 0) ∧
+      ∀ j : ℕ, cellMid (fun t => t ^ p) j 0 1 = ∑ i ∈ Finset.range (p + 1), γ i * ((1 / 2 : ℚ) ^ j) ^ i := by
+  refine ⟨fun i => gam p i * (2 * (1 / 2) ^ i - 1), ?_, ?_, fun j => cellMid_monomial_unit p j hp⟩
+  · simp only [gam_zero, pow_zero]; ring
+  · intro i hi; simp only [gam_odd p i hi, zero_mul]
+
+example : cellMid (fun t => t ^ 2) 0 0 1 = 1 / 4 ∧ cellMid (fun t => t ^ 2) 1 0 1 = 5 / 16 := by
+  refine ⟨?_, ?_⟩ <;> simp only [cellMid] <;> norm_num
+
+/-- **the balanced extrapolation grid on a complete grid is the Romberg table of the midpoint sums**: on the complete
+    dyadic grid of depth `m ≥ 1`, `BalancedExtrapolationGrid.set_grid` + `get_weights` return one weight per point, and
+    for EVERY integrand `f` the value of `integrate` is the last entry of the numeric Romberg table (`tableQ`: steps
+    `k = 1..m-1` with the coded factor `-1/(4^k - 1)`) built from the composite midpoint sums `M_0(f), …, M_{m-1}(f)` -/
+theorem balanced_complete_grid_is_romberg_table (a b : ℚ) (hab : a < b) (m : ℕ) (hm : 1 ≤ m) :
+    ∃ ws, balancedWeights (completeGrid a b m).1 (completeGrid a b m).2 = some ws ∧
+      ws.length = (completeGrid a b m).1.length ∧
+      ∀ f : ℚ → ℚ, (tableQ (m - 1) 1 ((List.range m).map (fun i => cellMid f i a (b - a)))).getLast?
+        = some (dot ws ((completeGrid a b m).1.map f)) := by
+  obtain ⟨ws, h1, h2, _, h3⟩ := complete_balanced_is_neville a b hab m hm
+  exact ⟨ws, h1, h2, h3⟩
+
+/-- **the Romberg table removes the error terms**: if the `m ≥ 1` rows are `Σ_{i ≤ P} β_i ((1/2)^t)^i`, `t = 0..m-1`, with
+    vanishing odd coefficients and `P ≤ 2m-1`, the last entry of the table is `β_0` -/
+theorem romberg_table_value (P : ℕ) (β : ℕ → ℚ) (m : ℕ) (hm : 1 ≤ m) (hodd : ∀ i, Odd i → β i = 0)
+    (hP : P ≤ 2 * m - 1) :
+    (tableQ (m - 1) 1 ((List.range m).map (fun t => ∑ i ∈ Finset.range (P + 1), β i * ((1 / 2 : ℚ) ^ t) ^ i))).getLast?
+      = some (β 0) := by
+  have h := neville_value P β m hm hodd hP
+  rw [colOf_eq_map] at h
+  simpa [expan] using h
+
+/-- **degree clause of C11 for the balanced grid**: on the complete dyadic grid of depth `m ≥ 1` on any interval
+    `a < b`, `BalancedExtrapolationGrid` returns `2^m + 1` weights and `integrate` is exact for every polynomial of
+    degree `≤ 2m-1` -/
+theorem balanced_degree (a b : ℚ) (hab : a < b) (m : ℕ) (hm : 1 ≤ m) (p : ℚ[X]) (hp : p.natDegree ≤ 2 * m - 1) :
+    ∃ ws, balancedWeights (completeGrid a b m).1 (completeGrid a b m).2 = some ws ∧ ws.length = 2 ^ m + 1 ∧
+      dot ws ((completeGrid a b m).1.map (fun y => p.eval y)) = polyInt p a b :=
+  complete_balanced_degree a b hab m hm p hp
+
+/-- the same for the monomials `y^n`, `n ≤ 2m-1` -/
+theorem balanced_degree_monomial (a b : ℚ) (hab : a < b) (m : ℕ) (hm : 1 ≤ m) (n : ℕ) (hn : n ≤ 2 * m - 1) :
+    ∃ ws, balancedWeights (completeGrid a b m).1 (completeGrid a b m).2 = some ws ∧
+      dot ws ((completeGrid a b m).1.map (fun y => y ^ n)) = (b ^ (n + 1) - a ^ (n + 1)) / ((n : ℚ) + 1) := by
+  obtain ⟨ws, h1, _, h3⟩ := balanced_degree a b hab m hm (X ^ n) (by rw [natDegree_X_pow]; exact hn)
+  simp only [eval_pow, eval_X] at h3
+  exact ⟨ws, h1, by rw [h3, polyInt_X_pow]⟩
+
+/-- non-vacuity: depth 3 on `[1,3]` (boundary weights 0); `y^5` is integrated exactly (`2m-1 = 5`), `y^6` is not — the
+    degree is sharp; depth 0 (the unrefined grid) is rejected by the code (`AssertionError`), hence `m ≥ 1` -/
+example : balancedWeights (completeGrid 1 3 3).1 (completeGrid 1 3 3).2
+      = some [0, 32/45, -4/9, 32/45, 2/45, 32/45, -4/9, 32/45, 0] ∧
+    balancedWeights (completeGrid 0 1 0).1 (completeGrid 0 1 0).2 = none := by decide +kernel
+example : dot [0, 32/45, -4/9, 32/45, 2/45, 32/45, -4/9, 32/45, 0] ((completeGrid 1 3 3).1.map (fun y : ℚ => y ^ 5))
+      = (3 ^ 6 - 1 ^ 6) / 6 ∧
+    dot [0, 32/45, -4/9, 32/45, 2/45, 32/45, -4/9, 32/45, 0] ((completeGrid 1 3 3).1.map (fun y : ℚ => y ^ 6))
+      ≠ (3 ^ 7 - 1 ^ 7) / 7 := by
+  have hg : (completeGrid 1 3 3).1 = [1, 5/4, 3/2, 7/4, 2, 9/4, 5/2, 11/4, 3] := by decide +kernel
+  rw [hg]
+  refine ⟨?_, ?_⟩ <;> simp only [dot, List.map] <;> norm_num
 
 /-- `polyInt` is the exact integral: value on monomials -/
 theorem polyInt_monomial (n : ℕ) (a b : ℚ) : polyInt (X ^ n) a b = (b ^ (n + 1) - a ^ (n + 1)) / ((n : ℚ) + 1) :=
